@@ -187,13 +187,14 @@ class Task:
     """
     def __init__(s, tid, unit, enforce, contract_headers, vars, call, replace=(), defs=None, reach=(), bounded=None,
                  timeout=900, mem_gb=8, object_bits=10, extra_cbmc=(), harness_pre="", harness_post="", native=None,
-                 contract=None, loop_contracts=False, group=None, notes=None, stubs=(), nothrow=True, solver="cadical", split_post=False, assumed=()):
+                 contract=None, loop_contracts=False, group=None, notes=None, stubs=(), nothrow=True, solver="cadical", split_post=False, assumed=(), no_return=False):
         s.id, s.unit, s.enforce, s.headers, s.vars, s.call = tid, unit, enforce, list(contract_headers), list(vars), call
         s.replace = list(replace); s.defs = dict(defs or {}); s.reach = list(reach); s.bounded = bounded
         s.timeout, s.mem_gb, s.object_bits, s.extra_cbmc = timeout, mem_gb, object_bits, list(extra_cbmc)
         s.harness_pre, s.harness_post, s.native, s.contract = harness_pre, harness_post, native, contract
         s.loop_contracts = loop_contracts; s.group = group or tid; s.notes = notes; s.stubs = list(stubs); s.nothrow = nothrow
         s.solver = solver; s.split_post = split_post; s.assumed = list(assumed)
+        s.no_return = no_return   # the call must end in the documented exception: normal return is itself a failed obligation
         s.dir = None
 
     def mangled(s, alias):
@@ -216,7 +217,8 @@ class Task:
         L.append("  LL_nothrow = %d;" % (1 if s.nothrow else 0))
         L.append("  " + s.call + ";")
         if s.harness_post: L.append(s.harness_post)
-        L.append('  __CPROVER_assert(0, "REACH normal return");')
+        if s.no_return: L.append('  __CPROVER_assert(0, "a call that must be rejected returned normally");')
+        else: L.append('  __CPROVER_assert(0, "REACH normal return");')
         for (lab, cond) in s.reach:
             L.append('  if (%s) __CPROVER_assert(0, "REACH %s");' % (cond, lab))
         L.append("}")
